@@ -8,7 +8,7 @@ CONFIG = dict(
           "spellings, one global per documented dangerous module and submodule form, benign stdlib, "
           "non-stdlib) crossed with every global-resolving opcode {GLOBAL, STACK_GLOBAL, INST}, every "
           "call-making opcode {REDUCE, OBJ, INST, NEWOBJ, NEWOBJ_EX}, computed callees, 12 fates of the value, "
-          "7 protocol framings and benign data before/after (quick: seeded stratified sample; thorough: the "
+          "7 protocol framings and benign data before/after - small, and tens of thousands of opcodes of plain data - (quick: seeded stratified sample; thorough: the "
           "full cross product).  The floor is computed from the generator's labels *confirmed by the "
           "reference VM's log* (the VM really resolved / called that entry) and compared with the public "
           "safety check's severity - on a fresh parse and (sampled) on an already analysed object edited into the "
@@ -164,6 +164,33 @@ def programs(ctx):
                             data = gen.frame(body, fr)
                             if ctx.mine(data):
                                 yield f"computed-{c}-{outer}-{fate}-{fr}", data
+    # D. scale: the same entries behind / in front of tens of thousands of opcodes of plain data
+    bigs = [b"(" + b"K\x01" * 12000 + b"l0", b"(" + b"I7\n" * 11000 + b"t0", b"]" + b"K\x02a" * 6000 + b"0",
+            b"(" + b"K\x01" * 40000 + b"l0"]
+    for (m, n) in names:
+        for r in ("GLOBAL", "STACK_GLOBAL", "INST"):
+            forms = []
+            if r != "INST":
+                forms.append(("import", gen.push_global(r, m, n)))
+            for c in (("INST",) if r == "INST" else ("REDUCE", "OBJ")):
+                call = gen.make_call(r, c, m, n, ["1+1", 2])
+                if call is not None:
+                    forms.append((f"call-{c}", call))
+            for fname, body in forms:
+                for bi, big in enumerate(bigs):
+                    if quick and rng.random() > (0.12 if bi < 3 else 0.03):
+                        continue
+                    for where in ("before", "after", "both"):
+                        if quick and rng.random() > 0.4:
+                            continue
+                        pre = big if where in ("before", "both") else b""
+                        post = big[:-1] if where in ("after", "both") else None
+                        # after: the dangerous value stays under the big container, which becomes the result
+                        data = pre + (body + post + b"\x86." if post else body + b".")
+                        fr = rng.choice(["none", "proto2", "proto4"])
+                        data = gen.frame(data, fr)
+                        if ctx.mine(data):
+                            yield f"big-{fname}-{r}-{where}-{bi}-{fr}", data
     # the classic: getattr(__import__('os'), 'system')('id')
     classic = (b"c__builtin__\ngetattr\n(c__builtin__\n__import__\n(" + gen.arg_bytes(["os"]) + b"tR" +
                gen.arg_bytes(["system"]) + b"tR(" + gen.arg_bytes(["id"]) + b"tR")
@@ -216,6 +243,8 @@ def edited_object(ctx, f, analysis, label, data, rank, reason, fresh_sev):
     target = list(f.Pickled.load(data))
     for wi, (base, warm, how) in enumerate(((WARM[0], "check", "insert"), (WARM[1], "props", "slice"),
                                             (WARM[2], "check+ast", "insert"), (data, "check", "identity-slice"))):
+        if how == "insert" and len(target) > 3000:
+            continue            # one insert per opcode: quadratic in the harness, nothing new over the slice form
         try:
             p = f.Pickled.load(base)
             if "check" in warm:
